@@ -294,13 +294,13 @@ func c14GenFaultCase(rng *rand.Rand, ci int, group string) (gConfig, []c14FOp) {
 	return cfg, out
 }
 
-const c14FaultRule = "Fault model: a fault lasts for one coordinator request (armed inside the request, so the harness's own boundary reads never fail) or for one time advance (all group-record writes of the cleanup ticks in it fail); kinds: the group-record write (PutConsumerGroup / DeleteConsumerGroup, whichever the coordinator makes) is LOST (not executed, error returned) or APPLIED (executed, error returned all the same), and/or the coordinator's FetchConsumerGroup fails; afterwards the store is healthy. Oracle = the C14 observer of leg 'group' on every reply (leader named in every join reply with a code >= 0 is a stored member; member list only and always in the leader's code-0 reply and equal to the stored membership; code 0 in generation g => g is the stored generation and every stored member's latest join reply, whatever its code, carried g; after completion + leader sync every stored member's sync(g) returns 0), with the stored record read back from the real store AFTER the reply. Because a failed write lets the stored record lag, the record the coordinator last ATTEMPTED to write is kept as a second view: a sync is judged only if its sender is a member of generation g in both views before and after it; a join reply that the stored record does not justify is objected to only if the attempted record does not justify it either (a reply with code >= 0 of the unchanged coordinator always follows a successful write, so both views agree there); replies UNKNOWN_SERVER_ERROR / Go errors are not judged, but a join reply UNKNOWN_SERVER_ERROR that carries a member id and a generation counts as that member having joined that generation (generous to the coordinator). A group whose deletion was attempted starts a new epoch for the completion/leader-sync bookkeeping. Violations in the generation of a record that survived a failed delete get their own class suffix."
+const c14FaultRule = "Fault model: a fault lasts for one coordinator request (armed inside the request, so the harness's own boundary reads never fail) or for one time advance (all group-record writes of the cleanup ticks in it fail); kinds: the group-record write (PutConsumerGroup / DeleteConsumerGroup, whichever the coordinator makes) is LOST (not executed, error returned) or APPLIED (executed, error returned all the same), and/or the coordinator's FetchConsumerGroup fails; afterwards the store is healthy. Oracle = the C14 observer of leg 'group' on every reply (leader named in every join reply with a code >= 0 is a stored member; member list only and always in the leader's code-0 reply and equal to the stored membership; code 0 in generation g => g is the stored generation and every stored member has joined g: its latest join reply carried g, or its latest join reply without an error code did, or an error-answered join since did; after completion + leader sync every stored member's sync(g) returns 0), with the stored record read back from the real store AFTER the reply. Because a failed write lets the stored record lag, the record the coordinator last ATTEMPTED to write is kept as a second view: a sync is judged only if its sender is a member of generation g in both views before and after it; a join reply that the stored record does not justify is objected to only if the attempted record does not justify it either (a reply with code >= 0 of the unchanged coordinator always follows a successful write, so both views agree there); replies UNKNOWN_SERVER_ERROR / Go errors are not judged; a join answered UNKNOWN_SERVER_ERROR may or may not have taken effect, so both the generation/subscription it carried and those of the member's latest join answered without error are accepted as what the member joined / subscribes to (in the leader's member list as well). A group whose deletion was attempted starts a new epoch for the completion/leader-sync bookkeeping. Violations in the generation of a record that survived a failed delete get their own class suffix."
 
 func TestVerifC14Fault(t *testing.T) {
 	r := verifkit.Start(t, "C14", "fault")
 	gSeedSalt = r.Seed
 	defer r.Finish("real GroupCoordinator over the real InMemoryStore behind a fault-injecting store and the recording decorator, synctest virtual time, one request at a time, 2-4 members. PRNG histories, half of them random op lists (join new/existing/forgotten id/changed subscription, sync, heartbeat, leave, time advances incl. session and rebalance-deadline expiry, settle rounds) with each request or advance faulted with probability 0.15, half of them phase-structured (group forming / all re-joined but leader not synced / stable / disturbed by a leave, a new member or a changed subscription with all or only some members re-joined; then a FAULTED request: re-join, join of a new member, join with changed subscription, leader sync, sync, heartbeat, leave; then another request or an expiry, sometimes faulted; then settle rounds, heartbeat-and-react rounds or random ops). "+c14FaultRule+" non-trivial = case in which a store call was failed and afterwards a >=2-member generation completed",
-		"'has joined the current generation' = the member's latest JoinGroup reply (any code, incl. UNKNOWN_SERVER_ERROR after a failed write) carried that generation",
+		"'has joined the current generation' = the member's latest JoinGroup reply carried that generation, or its latest reply without an error code did, or an error-answered (UNKNOWN_SERVER_ERROR after a failed write) join since did",
 		"transient = the store works again for the next request; what must hold while a write is still failing is not judged (replies -1)")
 	n := r.N(600, 12000)
 	for ci := 0; ci < n; ci++ {
@@ -372,7 +372,7 @@ func TestVerifC14FaultEnum(t *testing.T) {
 		}
 		total += n * st.depth * len(faults)
 	}
-	defer r.Finish(fmt.Sprintf("bounded-exhaustive single-fault enumeration: ALL sequences of length 3 (thorough: 4 from the two non-empty start states) over the alphabet %v, from the empty group, from a settled Stable group of 3 members and from that group after a newcomer's first join (a stored PreparingRebalance generation nobody else has joined), for 3 clients (session 10 s, rebalance timeout 3 s, cleanup 1 s), each run once per (position, fault kind) with exactly that step faulted, fault kinds %v: %d runs on the real coordinator on virtual time, judged after every step. ", names, faults, total)+c14FaultRule+" non-trivial = run in which a store call was failed and afterwards a >=2-member generation completed")
+	defer r.Finish(fmt.Sprintf("bounded-exhaustive single-fault enumeration: ALL sequences of length 3 (thorough: 4 from the two non-empty start states) over the alphabet %v, from the empty group, from a settled Stable group of 3 members and from that group after a newcomer's first join (a stored PreparingRebalance generation nobody else has joined), for 3 clients (session 10 s, rebalance timeout 3 s, cleanup 1 s), each run once per (position, fault kind) with exactly that step faulted, fault kinds %v: %d runs on the real coordinator on virtual time, judged after every step. ", names, faults, total) + c14FaultRule + " non-trivial = run in which a store call was failed and afterwards a >=2-member generation completed")
 	count := 0
 	for _, st := range starts {
 		idx := make([]int, st.depth)
